@@ -10,5 +10,5 @@ TRUSTED = ['mercantile.quadkey_to_tile / bounds: the four children of a non-empt
 ASSUMPTIONS = ['the functions of this property are outside the deductive reach of the engine in this round (generators, file readers, recursion over tiles, whole-test pipelines): every clause is decided by the bounded run-time contract only; see DESIGN.md section 10']
 EXPLANATION = 'deductive: recursion contracts + point location; bounded: single-resolution grids zoom 1..6/8, catalog-driven refinement, prefix-free quadkey sets: disjointness, coverage, unique containing cell, threshold criterion, area sum - run-time contract'
 TECHNIQUE = 'contracts on the real recursive functions (ghost set of appended keys, leaf function, measure), assumed mercantile partition contract, z3; bounded stand-in: run-time form of the contracts on the real code (small-scope enumeration + directed cases), labelled bounded, nothing counted as proved'
-LEVEL_TEXT = 'proof (structural induction, recursive calls through the function's own contract at a smaller measure): the leaves appended by _create_tile_fix_len / _create_tile partition the starting tile (coverage + pairwise disjointness by a ghost leaf function), have the prescribed length, record their own event count, exceed the threshold only at the maximum zoom, and a tile at or below the threshold is never split; _find_location returns the first (for disjoint cells: the unique) cell whose half-open bounds contain the point, or the empty array. Assembly of the four roots, areas and the class constructors are bounded only'
+LEVEL_TEXT = 'proof (structural induction, recursive calls through the own contract of the function at a smaller measure): the leaves appended by _create_tile_fix_len / _create_tile partition the starting tile (coverage + pairwise disjointness by a ghost leaf function), have the prescribed length, record their own event count, exceed the threshold only at the maximum zoom, and a tile at or below the threshold is never split; _find_location returns the first (for disjoint cells: the unique) cell whose half-open bounds contain the point, or the empty array. Assembly of the four roots, areas and the class constructors are bounded only'
 LEVEL_NOTE = 'bounded only; oracle independence trusted'
